@@ -71,6 +71,14 @@ void DependencyInfoParser::parse() {
   while (cur != end) {
     const char* opcodeStart = cur;
     auto opcode = Opcode(*cur++);
+
+    // An opcode in the last byte of the file has no operand (this happens when
+    // the data ends in more than one null byte); scanning for one would read
+    // past the end of the buffer.
+    if (cur == end) {
+      actions.error("missing operand", opcodeStart - data.data());
+      break;
+    }
     const char* operandStart = cur;
     while (*cur != '\0') {
       ++cur;
